@@ -155,7 +155,7 @@ UNITS = [
 VERIFIED_CALLEES = ("recreate_branches",)
 LEVEL = "other"
 TECHNIQUE = "contract-based deductive verification of frame conditions (copy freshness of recreate_branches, restoration of argparse.Namespace / context variables / cwd; VCs from the real AST) + bounded deep-snapshot contract around every public operation"
-LEVEL_TEXT = "under construction"
+LEVEL_TEXT = 'Proved: recreate_branches (clone, strip_meta, get_defaults) returns a structurally equal copy in which every Namespace, dict and list - also below tuples - is a new object, and leaves its input untouched, for every nesting of depth <= 3 (this exposed the sharing below tuples; fixed); argparse.Namespace and the context variables are restored on every exit of patch_namespace / parser_context; merge_config and parse_object work on copies (C04 units); cwd restored (C19 unit). Bounded only: deep snapshots (value, type, identity) around every public operation on 7 parser styles x 16 container shapes, incl. calls that raise midway, and instantiate-twice freshness.'
 LEVEL_NOTE = "under construction"
 EXPLANATION = "under construction"
 ASSUMPTIONS = []
